@@ -37,6 +37,12 @@ degrees) the check enumerates
   copy_layers_from()} followed by raising them with plain assignment col.surface = ... and the index set-up; then
   the full elevation set of every column; signatures carry '|route=<route>'.
 
+* vertical origins (both tiers): the 3-D set is also run on the rect grid with its top at 25, 10 and -7.5 (geometries
+  'rectz@<top>'), where column surfaces of exactly 0.0 and -0.0 lie strictly inside a layer, on a layer boundary and
+  above the model top; every surface route is also run on rect43 with those tops and on the file geometries
+  translated vertically ('g7@120.0', 'g7@-50.0', thorough 'g5@-120.0', 'g5@-250.0'), two columns in five then
+  getting the surface 0.0 / -0.0.
+
 Oracle = the property statement, evaluated with the exact reference geometry ref/geo_c12.py (integer
 arithmetic on the node coordinates; nothing under test is called by it).
 """
@@ -63,7 +69,8 @@ RULE = ('per geometry: every point of the shifted 41x41 lattice over the enlarge
         'rotate(30), translate, rotate(-75) and query, translate, rotate(90) with a reduced query pass (21x21 points x '
         'single aids, all columns x elevations, 5x5 line lattice) after every step; 4 edits x 3 target columns as query '
         '-> edit -> same queries in reverse order (+ the edited neighbourhood); 5 routes to the same column surfaces x '
-        'every column x the elevation set. A case is distinct by (geometry, point or line or (column, elevation), '
+        'every column x the elevation set, also with the vertical origin moved so that surfaces of exactly 0.0 and -0.0 '
+        'lie inside a layer, on a boundary and above the model top. A case is distinct by (geometry, point or line or (column, elevation), '
         'aid combination); a point case is non-trivial when the point is inside the bounding box, a line case when the '
         'line crosses at least one column')
 ASSUMPTIONS = [
@@ -147,7 +154,13 @@ NLINE_E = 3                # line lattice of an edit-history pass
 ESTEP = 5                  # an edit-history pass uses every ESTEP-th row and column of the point lattice
 # surface routes (3-D part): how the column surfaces and the cached col.num_layers were arrived at
 SROUTES = ('fresh-assigned', 'file-raised', 'lowered-raised', 'refine_layers-raised', 'copy_layers_from-raised')
-SGEOS = {'quick': ['rect43', 'g7'], 'thorough': ['rect43', 'g7', 'g5']}
+ZTOPS = (25.0, 10.0, -7.5)  # model tops for which a surface of exactly 0.0 is inside a layer / on a boundary / above the top
+ZGEOS = ['rectz@%r' % t for t in ZTOPS]          # 3-D part only (Q units)
+SGEOS = {'quick': ['rect43'] + ['rect43@%r' % t for t in ZTOPS] + ['g7', 'g7@120.0', 'g7@-50.0'],
+         'thorough': ['rect43'] + ['rect43@%r' % t for t in ZTOPS] + ['g7', 'g7@120.0', 'g7@-50.0', 'g5', 'g5@-120.0',
+                                                                         'g5@-250.0']}
+# ('g@shift': the file geometry translated vertically by shift, so that 0.0 lies inside its top layer / above its top;
+#  g5's top is at 200, g7's at 0)
 NLINE_H = 5                # line lattice of a history pass
 HSTEP = 2                  # a history pass uses every HSTEP-th row and column of the 41x41 point lattice
 MAX_TIMEOUTS = 2           # a work unit stops exploring after this many timeouts (reported; evidence then says cap_hit)
@@ -172,9 +185,17 @@ def _library_geometry(name):
     from mulgrids import mulgrid
     base = name[:-3] if name.endswith('_rr') else name
     with quiet():
-        if base == 'rect':
-            geo = mulgrid().rectangular([1., 30., 1000.], [1000., 30., 1.], [10., 20., 30.], atmos_type=2)
-            surf = [5.0, -4.0, -10.0, -17.5, None, -30.0, -45.0, 0.25, -59.5]
+        if base == 'rect' or base.startswith('rectz@'):
+            if base == 'rect':
+                top = 0.0
+                surf = [5.0, -4.0, -10.0, -17.5, None, -30.0, -45.0, 0.25, -59.5]
+            else:
+                # vertical origin moved so that an elevation of exactly 0.0 (and -0.0) is a legal column surface
+                # strictly inside a layer (top 25), on a layer boundary (top 10) or above the model top (top -7.5)
+                top = float(base.split('@')[1])
+                surf = [0.0, -0.0, top + 5.0, None, top - 4.0, 0.0, -0.0, top - 45.0, 0.0]
+            geo = mulgrid().rectangular([1., 30., 1000.], [1000., 30., 1.], [10., 20., 30.], atmos_type=2,
+                                        origin=[0., 0., top])
             for col, s in zip(geo.columnlist, surf):
                 if s is not None:
                     col.surface = s
@@ -415,6 +436,8 @@ def units(tier):
         nl = nline * nline
         for ch in core.chunks(range(nl), 16 if big else 6):
             us.append(('L', g, ch[0], ch[-1] + 1))
+    for g in ZGEOS:
+        us.append(('Q', g, 0, 1))
     for g, nparts in HGEOS[tier]:
         for seq in sorted(HIST):
             for part in range(nparts):
@@ -425,7 +448,7 @@ def units(tier):
                 us.append(('E', g, e, t))
     for g in SGEOS[tier]:
         for r in SROUTES:
-            if g != 'rect43' and r == 'fresh-assigned':
+            if not g.startswith('rect43') and r == 'fresh-assigned':
                 continue          # a geometry read from a file is never 'fresh'
             us.append(('S', g, r, 0))
     return us
@@ -1054,11 +1077,15 @@ def surface_route_geometry(g, route):
     surfaces are the same function of the column's rank whatever the route."""
     from mulgrids import mulgrid
     import numpy as np
+    base, _, origin = g.partition('@')
     with quiet():
-        if g == 'rect43':
-            geo = mulgrid().rectangular([100.] * 4, [100.] * 3, [10., 10., 20., 20., 40.], atmos_type=2)
+        if base == 'rect43':
+            geo = mulgrid().rectangular([100.] * 4, [100.] * 3, [10., 10., 20., 20., 40.], atmos_type=2,
+                                        origin=[0., 0., float(origin or 0.0)])
         else:
-            geo = mulgrid(os.path.join(core.REPO, 'tests', 'mulgrid', g + '.dat'))
+            geo = mulgrid(os.path.join(core.REPO, 'tests', 'mulgrid', base + '.dat'))
+            if origin:
+                geo.translate([0., 0., float(origin)])
 
     def levels(geo):
         top = float(geo.layerlist[0].bottom)
@@ -1078,9 +1105,9 @@ def surface_route_geometry(g, route):
         if route == 'fresh-assigned':
             pass
         elif route == 'file-raised':
-            if g == 'rect43':
+            if base == 'rect43':
                 assign(geo, low, True)
-                fn = os.path.join(core.scratch(), 'c12_%s_low.dat' % g)
+                fn = os.path.join(core.scratch(), 'c12_%s_low.dat' % base)
                 geo.write(fn)
                 geo = mulgrid(fn)
                 os.remove(fn)
@@ -1099,6 +1126,13 @@ def surface_route_geometry(g, route):
             raise ValueError(route)
         # finally the surfaces are set by plain assignment (col.surface = ...), followed by the index set-up
         assign(geo, high, False)
+        if origin:
+            # with the vertical origin moved, exactly 0.0 and -0.0 are legal surfaces: give them to two columns in five
+            for i, col in enumerate(geo.columnlist):
+                if i % 5 in (1, 3) and float(geo.layerlist[-1].bottom) < 0.0:
+                    col.surface = 0.0 if i % 5 == 1 else -0.0
+            geo.setup_block_name_index()
+            geo.setup_block_connection_name_index()
     return geo
 
 
